@@ -738,5 +738,20 @@ func (e *Engine) protectedHeaps(callee *ssa.Function) []string {
 			out = append(out, "H:"+as.Field)
 		}
 	}
+	// ghost variables change only through contracts that mention them (ghostensures / modifies): a callee that cannot
+	// reach such a function leaves them alone
+	for g := range e.db.GhostVars {
+		w := map[string]bool{}
+		for key, sp := range e.db.Funcs {
+			for _, cl := range sp.Clauses {
+				if (cl.Kind == "ghostensures" || cl.Kind == "modifies") && strings.Contains(cl.Src, g) {
+					w[key] = true
+				}
+			}
+		}
+		if len(w) > 0 && !e.reachesWriter(callee, w) {
+			out = append(out, "G:ghost."+g)
+		}
+	}
 	return out
 }
